@@ -8,6 +8,7 @@ import (
 	"os/exec"
 	"path/filepath"
 	"strings"
+	"syscall"
 	"time"
 
 	bolt "go.etcd.io/bbolt"
@@ -23,7 +24,31 @@ import (
 //      child process writes into every returned slice and must fault, or leave the stored
 //      content unchanged.
 
+// dumpHelper: open read-only, print content hash and Tx.Check result (used where the file may be damaged)
+func dumpHelper() {
+	d, bad, err := openDump(*flagFile)
+	if err != nil {
+		fmt.Println("dumphelper-open-failed", err)
+		os.Exit(3)
+	}
+	fmt.Printf("dumphelper %s %q\n", d, bad)
+}
+
+func safeDump(self, path string) (string, string, error) {
+	out, err := exec.Command(self, "dumphelper", "-replay", path).CombinedOutput()
+	var d, bad string
+	for _, ln := range strings.Split(string(out), "\n") {
+		if strings.HasPrefix(ln, "dumphelper ") {
+			if _, e := fmt.Sscanf(ln, "dumphelper %s %q", &d, &bad); e == nil {
+				return d, bad, nil
+			}
+		}
+	}
+	return "", "", fmt.Errorf("reading the file again fails (%v): %s", err, truncate(string(out), 120))
+}
+
 func init() {
+	engines["dumphelper"] = dumpHelper
 	engines["readonly"] = readonlyEngine
 	engines["lockhelper"] = lockHelper
 	engines["pokehelper"] = pokeHelper
@@ -245,6 +270,65 @@ func readonlyEngine() {
 		}
 	}
 
+	// ---- (a'') an Open that FAILS after it has taken the file lock leaves nothing behind: nobody
+	// has the database open afterwards, so a fresh descriptor gets the exclusive lock at once
+	// (the descriptors Open obtained are kept reachable through Options.OpenFile, so that no
+	// finalizer can release a leaked lock behind the monitor's back)
+	{
+		valid, _ := os.ReadFile(path)
+		kinds := map[string][]byte{
+			"garbage":      bytes.Repeat([]byte{0x5a}, 3*16384),
+			"short":        bytes.Repeat([]byte{0x5a}, 100),
+			"zero-metas":   make([]byte, 4*4096),
+			"bad-checksum": nil,
+		}
+		if ps := 4096; len(valid) >= 2*ps {
+			// both meta checksums broken (whatever the page size: the checksum field of a meta struct
+			// at the start of page 0 and of every possible second meta page)
+			bc := append([]byte(nil), valid...)
+			for off := 0; off+80 <= len(bc) && off <= 65536; off += 512 {
+				if off == 0 || (off&(off-1)) == 0 {
+					bc[off+16+56] ^= 0xff
+				}
+			}
+			kinds["bad-checksum"] = bc
+		}
+		for kind, content := range kinds {
+			if content == nil {
+				continue
+			}
+			for _, ro := range []bool{false, true} {
+				odd := filepath.Join(dir, "failopen.db")
+				_ = os.WriteFile(odd, content, 0o600)
+				var kept []*os.File
+				spy := func(name string, flag int, perm os.FileMode) (*os.File, error) {
+					f, err := os.OpenFile(name, flag, perm)
+					if err == nil {
+						kept = append(kept, f)
+					}
+					return f, err
+				}
+				db, err := bolt.Open(odd, 0o600, &bolt.Options{ReadOnly: ro, Timeout: 300 * time.Millisecond, OpenFile: spy})
+				rep.Evaluations++
+				if err == nil {
+					_ = db.Close()
+				} else if f2, e2 := os.OpenFile(odd, os.O_RDWR, 0); e2 == nil {
+					if e := syscall.Flock(int(f2.Fd()), syscall.LOCK_EX|syscall.LOCK_NB); e != nil {
+						rep.violation("C17", "monitor", "failed-open-keeps-lock", fmt.Sprintf("Open(readOnly=%v) of a file that is not a valid database (%s) failed with %q, yet the file is still locked afterwards (flock: %v): later opens of that file block or time out", ro, kind, err, e), map[string]any{"kind": kind, "readonly": ro})
+					} else {
+						_ = syscall.Flock(int(f2.Fd()), syscall.LOCK_UN)
+						rep.count("failed-open-lock-released")
+					}
+					_ = f2.Close()
+				}
+				for _, f := range kept {
+					_ = f.Close()
+				}
+				_ = os.Remove(odd)
+			}
+		}
+	}
+
 	// ---- (b) read-only database: API programs and CLI inspection commands never change the file
 	rodb, err := bolt.Open(path, 0o600, &bolt.Options{ReadOnly: true, Timeout: time.Second})
 	if err == nil {
@@ -300,13 +384,18 @@ func readonlyEngine() {
 
 	// ---- (c) slices handed out by a read transaction are not a writable view
 	before, _, _ := openDump(path)
+	pokeBackup := filepath.Join(dir, "poke-backup.db")
+	_ = copyFile(pokeBackup, path)
 	for _, mode := range []string{"ro", "rw"} {
 		out, err := exec.Command(self, "pokehelper", "-prop", mode, "-replay", path).CombinedOutput()
 		rep.Evaluations++
 		faulted := err != nil
 		rep.count(fmt.Sprintf("poke-%s-faulted=%v", mode, faulted))
-		after, bad, oerr := openDump(path)
+		// read the file again in a separate process: a store that went through to the file may have
+		// damaged it so badly that reading it faults, which is fatal for the process that reads
+		after, bad, oerr := safeDump(self, path)
 		if oerr != nil || after != before || bad != "" {
+			_ = copyFile(path, pokeBackup)
 			rep.violation("C17", "monitor", "write-through-returned-slice:"+mode, fmt.Sprintf("after a read transaction's caller wrote into returned slices (helper faulted=%v): content %s -> %s, check %q, open err %v; helper said: %s", faulted, before, after, truncate(bad, 80), oerr, truncate(string(out), 80)), map[string]any{"mode": mode})
 		}
 	}
